@@ -443,7 +443,18 @@ fn declare(
 			}
 			let linkage = LLVMLinkage::LLVMPrivateLinkage;
 			unsafe { LLVMSetLinkage(global, linkage) };
-			let constant = value.generate(llvm)?;
+			let constant = match value.generate(llvm)
+			{
+				Ok(constant) => constant,
+				Err(error) =>
+				{
+					// Do not leave a constant without initializer behind
+					// for other declarations to refer to.
+					llvm.global_variables.remove(&name.resolution_id);
+					unsafe { LLVMDeleteGlobal(global) };
+					return Err(error);
+				}
+			};
 			unsafe { LLVMSetInitializer(global, constant) };
 			let is_const = unsafe { LLVMIsConstant(constant) };
 			if is_const > 0
